@@ -175,12 +175,12 @@ pub fn execute(rt: &tokio::runtime::Runtime, op: Op, n: usize, window: usize, pr
 	let mut driver = match op {
 		Op::Map => Driver::S(TileStream::from_stream(input.boxed()).map_blob_parallel(move |b| {
 			let i = gate_blob(&b);
-			Blob::from(format!("out-{}", i.map(|i| i.to_string()).unwrap_or("?".into())))
+			Blob::from(i.map(|i| result_bytes("out", i)).unwrap_or_else(|| b"out-?".to_vec()))
 		})),
 		Op::FilterMap => Driver::S(TileStream::from_stream(input.boxed()).filter_map_blob_parallel(move |b| {
 			let i = gate_blob(&b)?;
 			if retained(i) {
-				Some(Blob::from(format!("out-{i}")))
+				Some(Blob::from(result_bytes("out", i)))
 			} else {
 				None
 			}
@@ -192,7 +192,7 @@ pub fn execute(rt: &tokio::runtime::Runtime, op: Op, n: usize, window: usize, pr
 					.filter_map_blob_parallel(move |b| {
 						let i = gate_blob(&b)?;
 						if retained(i) {
-							Some(Blob::from(format!("mid-{i}")))
+							Some(Blob::from(result_bytes("mid", i)))
 						} else {
 							None
 						}
@@ -213,7 +213,7 @@ pub fn execute(rt: &tokio::runtime::Runtime, op: Op, n: usize, window: usize, pr
 					Some(i) => {
 						g3.park(i);
 						if retained(i) {
-							Some(Blob::from(format!("out-{i}")))
+							Some(Blob::from(result_bytes("out", i)))
 						} else {
 							None
 						}
@@ -228,7 +228,7 @@ pub fn execute(rt: &tokio::runtime::Runtime, op: Op, n: usize, window: usize, pr
 		Op::MapBuffered(size) => {
 			let s = TileStream::from_stream(input.boxed()).map_blob_parallel(move |b| {
 				let i = gate_blob(&b);
-				Blob::from(format!("out-{}", i.map(|i| i.to_string()).unwrap_or("?".into())))
+				Blob::from(i.map(|i| result_bytes("out", i)).unwrap_or_else(|| b"out-?".to_vec()))
 			});
 			let cs = chunks_seen.clone();
 			Driver::F(Box::pin(s.for_each_buffered(size, move |chunk| {
@@ -353,6 +353,16 @@ pub fn execute(rt: &tokio::runtime::Runtime, op: Op, n: usize, window: usize, pr
 	out
 }
 
+/// What the callback yields for item i: "<tag>-<i>", except that every fourth item (i % 4 == 2) yields a
+/// zero-length result - a retained item whose result happens to be empty must still come out.
+fn result_bytes(tag: &str, i: usize) -> Vec<u8> {
+	if i % 4 == 2 {
+		vec![]
+	} else {
+		format!("{tag}-{i}").into_bytes()
+	}
+}
+
 fn expected(op: Op, n: usize) -> Vec<(TileCoord3, Vec<u8>)> {
 	let mut v = vec![];
 	for i in 0..n {
@@ -362,7 +372,7 @@ fn expected(op: Op, n: usize) -> Vec<(TileCoord3, Vec<u8>)> {
 		};
 		if keep {
 			let tag = if op == Op::FilterMapThenMap { "mid" } else { "out" };
-			v.push((coord_of(i), format!("{tag}-{i}").into_bytes()));
+			v.push((coord_of(i), result_bytes(tag, i)));
 		}
 	}
 	v
@@ -492,13 +502,13 @@ fn execute_with(rt: &tokio::runtime::Runtime, op: Op, n: usize, window: usize, d
 			} else {
 				g2.foreign_blob.store(true, Ordering::SeqCst);
 			}
-			Blob::from(format!("out-{}", i.map(|i| i.to_string()).unwrap_or("?".into())))
+			Blob::from(i.map(|i| result_bytes("out", i)).unwrap_or_else(|| b"out-?".to_vec()))
 		}),
 		Op::FilterMap => TileStream::from_stream(input.boxed()).filter_map_blob_parallel(move |b| {
 			let i = index_of(&b)?;
 			g2.park(i);
 			if retained(i) {
-				Some(Blob::from(format!("out-{i}")))
+				Some(Blob::from(result_bytes("out", i)))
 			} else {
 				None
 			}
@@ -519,7 +529,7 @@ fn execute_with(rt: &tokio::runtime::Runtime, op: Op, n: usize, window: usize, d
 				}
 				g3.park(i);
 				if retained(i) {
-					Some(Blob::from(format!("out-{i}")))
+					Some(Blob::from(result_bytes("out", i)))
 				} else {
 					None
 				}
@@ -787,7 +797,8 @@ pub fn run(ctx: Arc<Ctx>) {
 		let (mut n, mut bad) = (0u64, 0u64);
 		let mut first: Option<String> = None;
 		for t in &sets {
-			let src = PlainSource(MemSource::new("plain", t.clone(), TileFormat::BIN, TileCompression::Uncompressed));
+			// lookups answer after a coordinate-dependent number of Pending polls, so later ones can overtake earlier ones
+			let src = PlainSource(MemSource::new("plain", t.clone(), TileFormat::BIN, TileCompression::Uncompressed).with_uneven_yields());
 			let z = t.keys().next().unwrap().0;
 			let bbox = if z == 4 { TileBBox::new(4, 2, 4, 9, 7).unwrap() } else { TileBBox::new(10, 0, 76, 700, 78).unwrap() };
 			let out: Vec<(TileCoord3, Blob)> = rt.block_on(async { src.get_bbox_tile_stream(bbox).await.collect().await });
